@@ -32,6 +32,7 @@ import (
 	"github.com/conduitio/conduit/pkg/foundation/log"
 	"github.com/conduitio/conduit/pkg/foundation/metrics"
 	"github.com/conduitio/conduit/pkg/foundation/metrics/measure"
+	"github.com/conduitio/conduit/pkg/foundation/verifhook"
 	"github.com/conduitio/conduit/pkg/lifecycle/stream"
 	"github.com/conduitio/conduit/pkg/pipeline"
 	connectorPlugin "github.com/conduitio/conduit/pkg/plugin/connector"
@@ -228,6 +229,7 @@ func (s *Service) Start(
 		return err
 	}
 
+	verifhook.Point("lifecycle.start.checked")
 	s.logger.Debug(ctx).Str(log.PipelineIDField, pl.ID).Msg("starting pipeline")
 	s.logger.Trace(ctx).Str(log.PipelineIDField, pl.ID).Msg("building nodes")
 
@@ -246,6 +248,7 @@ func (s *Service) Start(
 	// pipeline, so a later WaitPipeline can't return a stale result.
 	s.terminalErrors.Delete(pipelineID)
 
+	verifhook.Point("lifecycle.start.before-run")
 	s.logger.Trace(ctx).Str(log.PipelineIDField, pl.ID).Msg("running nodes")
 	// runPipeline publishes rp into runningPipelines itself, at the point the
 	// run actually goes live — see the Set call there for why that ordering
@@ -293,6 +296,7 @@ func (s *Service) StartWithBackoff(ctx context.Context, rp *runnablePipeline) er
 	case <-time.After(duration):
 	}
 
+	verifhook.Point("lifecycle.recover.backoff-elapsed")
 	// The user may have stopped or restarted the pipeline while we were waiting.
 	actualRp, ok := s.runningPipelines.Get(rp.pipeline.ID)
 	if !ok || actualRp != rp {
@@ -339,6 +343,7 @@ func (s *Service) Stop(ctx context.Context, pipelineID string, force bool) error
 		return err
 	}
 
+	verifhook.Point("lifecycle.stop.checked")
 	switch force {
 	case false:
 		return s.stopGraceful(ctx, rp, nil)
@@ -964,6 +969,7 @@ func (s *Service) runPipeline(ctx context.Context, rp *runnablePipeline) error {
 
 		nodesWg.Wait()
 		err := rp.t.Err()
+		verifhook.Point("lifecycle.run.ended")
 
 		switch err {
 		case tomb.ErrStillAlive:
